@@ -36,8 +36,9 @@ CLAIMED["C17"] = dict(
 
 CLAIMED["C20"] = dict(
     text="Unbounded proof of the union-find core from the real AST: DisjointSet.__init__, find (recursive, with path compression; termination measure on ranks), "
-         "unite (merges exactly the two classes, reports whether they differed, decrements the group counter accordingly) and __len__, against a ghost "
-         "representative map with a representation invariant. Triple decomposition, tree reconstruction, all-trees, supertree, to_list and binary() "
+         "unite (merges exactly the two classes, reports whether they differed, decrements the group counter accordingly), __len__ and to_list (reports exactly "
+         "the classes: every element once, each group inside one class, no class split, no empty group; the filtering list comprehension is encoded as a strictly "
+         "increasing position map), against a ghost representative map with a representation invariant. Triple decomposition, tree reconstruction, all-trees, supertree and binary() "
          "are covered by a bounded stand-in against an explicit enumeration oracle (<= 5 leaves, union histories <= 3 on 5 elements) - labelled bounded.",
     note="Trusted: pyvc encoding; z3/cvc5; ghost field g_rep and the ghost relabelling statements inserted before the three parent-link assignments of unite; "
          "elements are in range (precondition). Bounded parts are not counted as proved.",
